@@ -313,7 +313,17 @@ func tokenize(src string) []token {
 					p := toks[len(toks)-1]
 					switch p.k {
 					case tPunct:
-						block = p.s == ")" || p.s == ";" || p.s == "{" || p.s == "}" || p.s == "=>" || p.s == ":" && false
+						block = p.s == ")" || p.s == ";" || p.s == "{" || p.s == "}" || p.s == "=>"
+						if p.s == ":" {
+							// label or case clause => block; property value => object literal
+							block = true
+							if len(toks) >= 3 {
+								q := toks[len(toks)-3]
+								if q.k == tPunct && (q.s == "{" || q.s == "," || q.s == "?") {
+									block = false
+								}
+							}
+						}
 					case tIdent:
 						block = !(p.s == "return" || p.s == "typeof" || p.s == "in" || p.s == "of" || p.s == "instanceof" || p.s == "new" || p.s == "void" || p.s == "delete" || p.s == "throw" || p.s == "case" || p.s == "yield" || p.s == "await")
 					case tTemplate:
